@@ -29,4 +29,24 @@ run benign2-C14 C14 C15
 run benign2-C16 C16
 run benign2-C19 C19
 run benign2-C20 C20
+run benign3-C01 C01 C02 C03 C15
+run benign3-C02 C02 C03 C01
+run benign3-C03 C03 C01 C02 C15
+run benign3-C04 C04 C05
+run benign3-C05 C05 C04
+run benign3-C06 C06 C07 C08 C18
+run benign3-C07 C07 C06 C18
+run benign3-C08 C08 C06 C07 C18
+run benign3-C09 C09 C10
+run benign3-C10 C10 C09
+run benign3-C11 C11 C04 C02
+run benign3-C12 C12 C04 C05
+run benign3-C13 C13
+run benign3-C14 C14 C15
+run benign3-C15 C15
+run benign3-C16 C16
+run benign3-C17 C17
+run benign3-C18 C18 C07 C08
+run benign3-C19 C19
+run benign3-C20 C20
 echo ALLDONE
